@@ -101,7 +101,8 @@ func main() {
 	noCold := flag.Bool("nocold", false, "with -replay: ignore the program's cold flag (sequential pass first)")
 	histCheck := flag.String("histcheck", "", "replay file: execute its program in two fresh processes (epochs in order / reversed) and compare the results of every epoch")
 	flag.Parse()
-	go watchdog(10 * time.Minute)
+	go watchdog(4 * time.Minute)
+	setHashKey(*seed, *from, *replay, *minimize, *histCheck)
 	var focusKinds []string
 	if *focus != "" {
 		focusKinds = strings.Split(*focus, ",")
@@ -317,6 +318,7 @@ func main() {
 		if len(o.Violations) > 0 {
 			sum.Violations++
 			enc.Encode(runLine{Run: run, Hash: fmt.Sprintf("%016x", o.Hash), Violations: o.Violations, Program: p})
+			w.Flush() // survives a later watchdog exit
 		} else if *hashlog {
 			enc.Encode(runLine{Run: run, Hash: fmt.Sprintf("%016x", o.Hash)})
 		}
@@ -612,4 +614,26 @@ func historyRun(p *sim.Program) bool {
 		}
 	}
 	return false
+}
+
+// setHashKey fixes VERIF_HASHKEY, which the stand-ins for hash/maphash and
+// math/rand in the instrumented copy read at their first use: the key
+// recorded in the program when one is replayed, a function of (seed, first
+// run of this process) otherwise. Must run before the first library call.
+func setHashKey(seed, from uint64, files ...string) {
+	key := (seed+1)*0x9e3779b97f4a7c15 ^ (from+1)*0xd6e8feb86659fd93
+	for _, f := range files {
+		if f == "" {
+			continue
+		}
+		var rf sim.ReplayFile
+		if data, err := os.ReadFile(f); err == nil && json.Unmarshal(data, &rf) == nil && rf.Program != nil && rf.Program.HashKey != 0 {
+			key = rf.Program.HashKey
+		}
+	}
+	if key == 0 {
+		key = 1
+	}
+	sim.ProcessHashKey = key
+	os.Setenv("VERIF_HASHKEY", fmt.Sprint(key))
 }
